@@ -322,6 +322,12 @@ func (x *Unit) readLV(st *State, lv *LV) Val {
 		if strings.HasPrefix(lv.key, "struct:") {
 			return x.readStructAt(st, lv.ref, lv.typ)
 		}
+		if lv.key == "time_Timer.C" {
+			// a timer's channel is a function of the timer
+			ch := x.uf("timerch", SInt, lv.ref)
+			x.fact(And(Eq(x.uf("chkind", SInt, ch), IntLit(2)), Eq(x.uf("chtimer", SInt, ch), lv.ref)))
+			return Val{ch, lv.typ}
+		}
 		h := x.heapGet(st, lv.key, ArraySort(SInt, lv.srt))
 		v := Val{Select(h, lv.ref), lv.typ}
 		return v
